@@ -4,7 +4,9 @@ import TTV.Lemmas.RunUnique
 /-! # C05 — all details and every traceback reach the result
 
 Same quantifier as C01 (`Props/C01.lean`).  Hypothesis `wf p` (see `Spec/RunCommon.lean`), which for this
-property also says that no user-supplied detail is named `reason`.  Known finding D3 (`lateCollision`): a plain
+property also says that no user-supplied detail is named `reason` (the framework attaches its own `reason` by a
+plain `addDetail`) and that the content objects / failed expectations supplied by user code are pairwise
+distinct (the clause `mismatch-fixture-details` identifies a detail by its content).  Known finding D3 (`lateCollision`): a plain
 `addDetail(n)` that replaces an entry stored under a generated / renamed name loses that entry; the clauses
 `tracebacks` and `mismatch-fixture-details` are therefore proved outside that class (`holds_model_partial`), and
 `C05_finding_witness` shows the model exhibiting the defect inside it. -/
@@ -538,6 +540,106 @@ theorem clause_tracebacks (hcl : p.skipDeco = none → (runCore p ff0).1.clobber
       visibleDetails, hsd, if_true, tbsIn_frozen, hT, Bool.and_eq_true]
     exact ⟨tbs_required _ _ _ hD.tperm, tbs_related _ _ _ hD.tperm⟩
 
+/-- every mismatch / fixture detail of an executed stage has been stored, with the bytes due -/
+theorem unique_cov (hskip : p.skipDeco = none) (o : Outcome) (d : Details) (r : Option Exc) (ffa : Bool) (m : Nat)
+    (a : List (Nat × Nat)) (U : List (DName × Content)) (hC : Cov (runCore p ff0).1 U)
+    (hnd : ((runCore p ff0).1.execd.map Stage.id).Nodup) (n : DName) (c : Content)
+    (h : (n, c) ∈ uniqueAdds p
+      ⟨wrapRun p.flavour ([.startTest] ++ (runCore p ff0).1.log ++ [.outcome o d] ++ stopEv p.flavour), r, ffa, m, a⟩) :
+    ∃ u ∈ U, u.1 = n ∧ freeze (runCore p ff0).1.clock u.2 = c := by
+  have cf := runCore_facts p ff0 hwf hskip
+  have hids := (reads_of p ff0 hwf hskip o d r ffa m a).ids
+  have hfin := finalClock_eq p ff0 hwf hskip o d r ffa m a
+  have htimed : timed p ⟨wrapRun p.flavour ([.startTest] ++ (runCore p ff0).1.log ++ [.outcome o d] ++ stopEv p.flavour), r, ffa, m, a⟩
+      = ((runCore p ff0).1.execd.zipIdx 1).map fun x => (x.2, x.1) := by
+    unfold timed
+    rw [hids]
+    exact timed_eq_aux p _ 1 (fun st hst => findStage_of_mem p hwf st (cf.execdIn st hst))
+  simp only [uniqueAdds, htimed, hids, hfin, List.mem_flatMap, List.mem_map] at h
+  obtain ⟨⟨k, st⟩, ⟨⟨st', k'⟩, hz, hk⟩, h⟩ := h
+  simp only [Prod.mk.injEq] at hk
+  obtain ⟨rfl, rfl⟩ := hk
+  obtain ⟨hk1, hk2, hget⟩ := List.mem_zipIdx hz
+  have hi : (runCore p ff0).1.execd[k' - 1]? = some st' := by
+    rw [List.getElem?_eq_some_iff]; exact ⟨by omega, hget.symm⟩
+  have hmem : st' ∈ (runCore p ff0).1.execd := List.mem_of_getElem? hi
+  simp only [List.mem_append, List.mem_flatMap] at h
+  rcases h with ⟨act, hact, h⟩ | h
+  · cases act with
+    | expect mid ds =>
+      obtain ⟨h1, h2⟩ := mem_uqActs_expect st'.acts mid ds hact
+      simp only [List.mem_append, List.mem_map, List.mem_singleton] at h
+      rcases h with ⟨x, hx, he⟩ | he
+      · cases he
+        exact ⟨_, hC.acts st' hmem _ (h2 x hx), rfl, freeze_user _ _⟩
+      · cases he
+        exact ⟨_, hC.acts st' hmem _ h1, rfl, rfl⟩
+    | useFixture f ds cu =>
+      simp only [List.mem_map] at h
+      obtain ⟨x, hx, he⟩ := h
+      cases he
+      rcases hC.fix st' hmem f ds cu hact with ⟨pre, post, hp⟩ | ⟨post, hp, _, _⟩ | ⟨t, ht, hg⟩
+      · rw [cf.stack] at hp; simp at hp
+      · rw [cf.stack] at hp; simp at hp
+      · have hidx : ((runCore p ff0).1.execd.map Stage.id).idxOf cu.id = t := by
+          obtain ⟨hlt, hget⟩ := List.getElem?_eq_some_iff.mp ht
+          have hlt' : t < ((runCore p ff0).1.execd.map Stage.id).length := by simpa using hlt
+          have := hnd.idxOf_getElem t hlt'
+          simpa [hget] using this
+        rw [hidx]
+        refine ⟨_, hg _ (List.mem_map.mpr ⟨x, hx, rfl⟩), rfl, ?_⟩
+        rw [freeze_idem, freeze_user]
+    | cleanup s => simp at h
+    | addDetail n' c' => simp at h
+    | patch k v => simp at h
+  · have hk' : k' - 1 + 1 = k' := by omega
+    have hterm := hC.term (k' - 1) st' hi
+    rw [hk'] at hterm
+    cases ht : st'.term with
+    | assertFail e ds =>
+      rw [ht] at h hterm
+      simp only [List.mem_map] at h
+      obtain ⟨x, hx, he⟩ := h
+      cases he
+      exact ⟨_, hterm _ (by simp only [uqTerm, List.mem_map]; exact ⟨x, hx, rfl⟩), rfl, freeze_user _ _⟩
+    | fixtureFail ds e se =>
+      rw [ht] at h hterm
+      simp only [List.mem_map] at h
+      obtain ⟨x, hx, he⟩ := h
+      cases he
+      refine ⟨_, hterm _ (by simp only [uqTerm, List.mem_map]; exact ⟨x, hx, rfl⟩), rfl, ?_⟩
+      rw [freeze_idem, freeze_user]
+    | ret => rw [ht] at h; simp at h
+    | raise1 e => rw [ht] at h; simp at h
+    | raiseMulti es me => rw [ht] at h; simp at h
+    | expectFailure r' eo x => rw [ht] at h; simp at h
+
+theorem clause_uniqueDetails (hcl : p.skipDeco = none → (runCore p ff0).1.clobbered = false) :
+    cUniqueDetails p ff0 (runOnce p ff0) = true := by
+  simp only [cUniqueDetails, Bool.or_eq_true]
+  by_cases hsd : showsDetails p.flavour = true
+  case neg => left; left; simpa using hsd
+  cases hskip : p.skipDeco with
+  | some r => left; right; rfl
+  | none =>
+    right
+    obtain ⟨o, r, sel, _, hshape⟩ := runOnce_shape_d p ff0 hwf hskip
+    have cf := runCore_facts p ff0 hwf hskip
+    obtain ⟨T, A, U, hA⟩ := runCore_invAll p ff0 hwf
+    have hJ := hA.d.js.final (handlers p) sel
+    rw [hcl hskip] at hJ
+    have hK : (keysU U ++ keysA A).Nodup := by
+      have := hA.keys.nodup
+      rw [cf.stack] at this
+      simpa [pendingKeys] using this
+    have hnd := (List.nodup_append.mp hA.once.nodup).1
+    rw [hshape, List.all_eq_true]
+    rintro ⟨n, c⟩ hx
+    obtain ⟨u, hu, rfl, rfl⟩ := unique_cov p ff0 hwf hskip _ _ _ _ _ _ U hA.cov hnd n c hx
+    have := stored_once (runCore p ff0).1.clock hJ hK u hu
+    simp only [detailsOf_shape _ _ cf.logPure, visibleDetails, hsd, if_true, frozenDetails, Bool.and_eq_true, beq_iff_eq]
+    exact ⟨this.1, this.2⟩
+
 end perRun
 
 /-! ## headline -/
@@ -563,18 +665,13 @@ theorem lift_model_partial (c : Program → Bool → Trace → Bool) (i : Input)
   | false => simp
   | true => simp [C01.runMany_length, perRun_runMany_partial c i.prog (h hwf) i.runs false hl]
 
-/-- the clauses proved so far -/
-def provedClauses : List (String × (Input → List Trace → Bool)) :=
-  [("user-details", lift cUserDetails), ("tracebacks", lift cTracebacks), ("names-distinct", lift cNamesDistinct),
-   ("skip-reason", lift cReason), ("on-exception-handlers", lift cOnException)]
-
 /-- The executable spec of C05 holds of the model's trace for every input outside the known-finding class
-`lateCollision` (D3).
+`lateCollision` (D3: a plain `addDetail(n)` replaced an entry stored under a generated / renamed name).
 Full statement (false inside the class, see `C05_finding_witness`): `∀ i, holds i (model i) = true`. -/
-theorem holds_model_partial (i : Input) (h : lateCollision i = false) :
-    provedClauses.all (fun c => c.2 i (model i)) = true := by
-  simp only [provedClauses, List.all_cons, List.all_nil, Bool.and_true, Bool.and_eq_true]
+theorem holds_model_partial (i : Input) (h : lateCollision i = false) : holds i (model i) = true := by
+  simp only [holds, clauses, List.all_cons, List.all_nil, Bool.and_true, Bool.and_eq_true]
   exact ⟨C01.lift_model _ i (fun hwf ff0 => clause_userDetails _ ff0 hwf),
+    lift_model_partial _ i h (fun hwf ff0 hcl => clause_uniqueDetails _ ff0 hwf hcl),
     lift_model_partial _ i h (fun hwf ff0 hcl => clause_tracebacks _ ff0 hwf hcl),
     C01.lift_model _ i (fun hwf ff0 => clause_namesDistinct _ ff0 hwf),
     C01.lift_model _ i (fun hwf ff0 => clause_reason _ ff0 hwf),
@@ -651,6 +748,28 @@ theorem C05_user_details (p : Program) (ff0 : Bool) (hwf : wf p = true) (hskip :
   simp only [detailsOf_shape _ _ cf.logPure, visibleDetails, hsd, if_true]
   rw [find_frozen, hJ.ud n c (hD.adds ▸ h)]
   simp [freeze_user]
+
+/-- C05 (mismatch and fixture details, outside the finding class): on results that receive the details dict,
+every detail handed over by an `expectThat` / `assertThat` mismatch, the marker of every failed expectation, and
+every detail of every used fixture (also of a fixture whose setUp failed) arrives exactly once — under its own
+name or a `-k` renaming of it — with the bytes due (mismatch details: read when the outcome is reported; fixture
+details: read when gathered, i.e. right before the fixture's cleanUp; a failed fixture: at that moment).
+Hypothesis: no plain `addDetail` replaced a generated entry in this run (finding D3).
+Full statement (false inside the class): the same without the hypothesis `hcl`. -/
+theorem C05_mismatch_fixture_partial (p : Program) (ff0 : Bool) (hwf : wf p = true) (hskip : p.skipDeco = none)
+    (hsd : showsDetails p.flavour = true) (hcl : (runCore p ff0).1.clobbered = false) :
+    ∀ x ∈ uniqueAdds p (runOnce p ff0),
+      ((detailsOf (runOnce p ff0)).filter fun y => y.2 == x.2).length = 1 ∧
+      ∃ y ∈ detailsOf (runOnce p ff0), y.2 = x.2 ∧ isRenaming x.1 y.1 = true := by
+  have := clause_uniqueDetails p ff0 hwf (fun _ => hcl)
+  simp only [cUniqueDetails, hsd, hskip, Bool.not_true, Option.isSome_none, Bool.false_or, List.all_eq_true,
+    Bool.and_eq_true, beq_iff_eq] at this
+  intro x hx
+  obtain ⟨h1, h2⟩ := this x hx
+  refine ⟨h1, ?_⟩
+  obtain ⟨y, hy, hyc⟩ := List.any_eq_true.mp h2
+  simp only [Bool.and_eq_true, beq_iff_eq] at hyc
+  exact ⟨y, hy, hyc.1, hyc.2⟩
 
 /-- C05 (names): the reported details never contain a name twice. -/
 theorem C05_names_distinct (p : Program) (ff0 : Bool) (hwf : wf p = true) :
